@@ -125,6 +125,35 @@ func bundleInst(c *core.Ctx, label string, shareParsed bool) *inst {
 	return bundleInstOf(c, label, lb, shareParsed)
 }
 
+// sharedBuiltBundleInst: one hand-built Bundle object (not a parsed one) that the
+// caller keeps and serializes again and again, possibly from several tasks. Its
+// request URLs may carry what a parsed bundle never has (a fragment).
+func sharedBuiltBundleInst(c *core.Ctx, label string) *inst {
+	var lb *gen.LBundle
+	for {
+		lb = gen.DrawBundle(c, 4, true)
+		if !lb.ExpectWriteError {
+			break
+		}
+	}
+	shared := lb.ToRepo()
+	for _, e := range shared.Exchanges {
+		if len(lb.Order[e.Request.URL.String()]) == 1 && c.Chance(label+".fragment", 1, 3) {
+			e.Request.URL.Fragment = c.PickStr(label+".fragmentText", "top", "a/b", "x y")
+		}
+	}
+	in := &inst{name: label + ":Bundle.WriteTo(shared hand-built)", writer: true}
+	var last atomic.Int64
+	in.run = func(w io.Writer) error {
+		n, err := shared.WriteTo(w)
+		last.Store(n)
+		return err
+	}
+	in.count = func() int64 { return last.Load() }
+	in.sharedHash = func() uint64 { return hashBundle(shared) }
+	return in
+}
+
 func bundleInstOf(c *core.Ctx, label string, lb *gen.LBundle, shareParsed bool) *inst {
 	in := &inst{name: label + ":Bundle.WriteTo", writer: true}
 	var last atomic.Int64 // several tasks may run one instance concurrently
@@ -249,7 +278,7 @@ func sxgInstOf(c *core.Ctx, label string, l *gen.LSXG, kind sxgKind) *inst {
 		panic(err)
 	}
 	// shared certificates and key for signers created per call
-	certs := []*x509.Certificate{l.Leaf.Cert(), fixtures.CA()}
+	certs := []*x509.Certificate{l.Leaf.Cert(), l.Leaf.Issuer()}
 	// One Signer object shared by all calls and tasks. Its Algorithm is already
 	// set (no lazy initialisation), so DumpSignedMessage and AddSignatureHeader
 	// only read it.
@@ -348,7 +377,7 @@ func renewalInst(c *core.Ctx, label string) *inst {
 			break
 		}
 	}
-	mine := []*x509.Certificate{l.Leaf.Cert(), fixtures.CA()}
+	mine := []*x509.Certificate{l.Leaf.Cert(), l.Leaf.Issuer()}
 	theirs := []*x509.Certificate{other.Cert()}
 	s := lc.Signer()
 	first := c.Bool(label + ".otherFirst")
@@ -435,7 +464,7 @@ func certChainInst(c *core.Ctx, label string) *inst {
 	for i := 0; i < n; i++ {
 		certs = append(certs, fixtures.Leaves[perm[i]].Cert())
 	}
-	certs = append(certs, fixtures.CA())
+	certs = append(certs, fixtures.Leaves[perm[n-1]].Issuer())
 	ocsp := c.Bytes(label+".ocsp", 1, 300)
 	var sct []byte
 	if c.Bool(label + ".hasSct") {
@@ -475,7 +504,7 @@ func certChainInst(c *core.Ctx, label string) *inst {
 // the same objects (variant: the same chain from freshly parsed certificates).
 func certSiblingInst(c *core.Ctx, label string) *inst {
 	leaf := fixtures.Leaves[c.Pick(label+".leaf", len(fixtures.Leaves))]
-	certs := []*x509.Certificate{leaf.Cert(), fixtures.CA()}
+	certs := []*x509.Certificate{leaf.Cert(), leaf.Issuer()}
 	ocsp := c.Bytes(label+".ocsp", 1, 60)
 	sctA, sctB := []byte(nil), c.Bytes(label+".sctB", 1, 40)
 	if c.Bool(label + ".aHasSct") {
@@ -863,6 +892,7 @@ func (e errSwallowed) Error() string {
 var instMakers = []func(c *core.Ctx) *inst{
 	func(c *core.Ctx) *inst { return bundleInst(c, "bundle", false) },
 	func(c *core.Ctx) *inst { return bundleInst(c, "pbundle", true) },
+	func(c *core.Ctx) *inst { return sharedBuiltBundleInst(c, "sbundle") },
 	func(c *core.Ctx) *inst { return encodeHeaderInst(c, "ehdr") },
 	func(c *core.Ctx) *inst { return sxgInst(c, "sxgw", sxgWrite) },
 	func(c *core.Ctx) *inst { return sxgInst(c, "sxgh", sxgDumpHeaders) },
